@@ -168,6 +168,9 @@ class WMSSource(MapLayer):
         if self.opacity is not None or other.opacity is not None:
             return False
 
+        if self.res_range != other.res_range:
+            return False
+
         if self.supported_srs != other.supported_srs:
             return False
 
@@ -202,7 +205,7 @@ class WMSSource(MapLayer):
                          transparent_color_tolerance=self.transparent_color_tolerance,
                          supported_srs=self.supported_srs,
                          supported_formats=self.supported_formats,
-                         res_range=None,  # layer outside res_range should already be filtered out
+                         res_range=self.res_range,
                          coverage=self.coverage,
                          fwd_req_params=self.fwd_req_params,
                          )
